@@ -135,6 +135,12 @@ def replay(pid, ob, repo):
                 args[pn] = pt_obj
             elif tk == 'Ref[FileWrapper]':
                 args[pn] = build_file_wrapper(cm, pre, mods)
+            elif pn == 'self' and qual.endswith('.__init__') and tk.startswith('Ref['):
+                # constructor replay: a blank instance of the real class, then the real __init__
+                owner = importlib.import_module(module)
+                for part in qual.split('.')[:-1]:
+                    owner = getattr(owner, part)
+                args[pn] = object.__new__(owner)
             elif tk.startswith('Obj['):
                 continue
             elif pre in cm and not isinstance(cm[pre], dict):
@@ -157,7 +163,12 @@ def replay(pid, ob, repo):
         except Exception as e:  # noqa
             raised = '%s: %s' % (type(e).__name__, e)
         clause = ob.get('text') or ''
-        info = {'function': base, 'inputs': {k: repr(v)[:300] for k, v in args.items()},
+        def _r(v):
+            try:
+                return repr(v)[:300]
+            except Exception:
+                return '<%s instance>' % type(v).__name__
+        info = {'function': base, 'inputs': {k: _r(v) for k, v in args.items() if k != 'self' or not qual.endswith('.__init__')},
                 'observed': repr(observed)[:300], 'raised': raised, 'clause': clause}
         if raised is not None:
             info['reproduced'] = ob.get('kind') in ('noraise', 'post', 'pre')
